@@ -19,7 +19,7 @@ package sql
 
 // the name following REFERENCES is replaced by the SQL table name
 //@ func generateCustomConstraint$lit1
-//@   props C16
+//@   props C16 C08
 //@   ensures result == strings.Cut(s, " ") + " " + gen.SQLTableName(second(strings.Cut(s, " ")))
 
 // a constraint starting with ADD is attached to the table of the struct whose declaration carries the comment
